@@ -1,4 +1,5 @@
 #include "fmt_binary.hpp"
+#include "../core/binseeds.hpp"
 #include <jsoncons_ext/msgpack/msgpack.hpp>
 using namespace jsoncons;
 namespace iosim {
@@ -18,18 +19,7 @@ struct MsgpackB {
     static void encode(const ojson& j, std::vector<uint8_t>& out, uint64_t) { msgpack::encode_msgpack(j, out); }
     static void encode_stream(const ojson& j, std::ostream& os, uint64_t) { msgpack::encode_msgpack(j, os); }
     static Outcome encoder_nest(int ckind, size_t depth, int limit) { auto opt = msgpack::msgpack_options{}.max_nesting_depth(limit); return encoder_nest_impl<msgpack::msgpack_bytes_encoder, std::vector<uint8_t>, msgpack::msgpack_options>(ckind, depth, opt, false); }
-    static const char* const* seed_hex() {
-        static const char* const s[] = {
-            "c0", "c2", "c3", "00", "7f", "ff", "e0", "cc80", "cdffff", "ceffffffff", "cfffffffffffffffff", "d080", "d18000", "d280000000", "d38000000000000000", "d37fffffffffffffff", "cf8000000000000000",
-            "ca3fc00000", "ca7f800000", "cb3ff8000000000000", "cb7ff8000000000000", "a0", "a3616263", "bf" "61616161616161616161616161616161616161616161616161616161616161", "d903616263", "da0003616263", "db00000003616263", "a2c3a9", "a2c328", "a1ff",
-            "c403010203", "c50003010203", "c600000003010203", "c400", "90", "93010203", "dc0003010203", "dd00000003010203", "80", "81a16101", "de0001a16101", "df00000001a16101", "8101 02", "81c0 02", "819101 02",
-            "d40105", "d5010506", "d60105060708", "d7010506070805060708", "d801 05060708050607080506070805060708", "c7030101 0203", "c8000301010203", "c90000000301010203", "c70001",
-            "d6ff5a4af600", "d7ff 0000000a 5a4af600", "d7ffffffffff00000000", "c70cff 3b9ac9ff 000000005a4af600", "c70cff 00000000 ffffffffffffffff", "d6ff00000000", "d5ff0000",
-            "92 93010203 82a16101a1629100", "9191919191919191919191919191919191919191919101", "c1", "93c1", "81c1c1",
-            "dbffffffff6161", "c6ffffffff01", "ddffffffff01", "dfffffffffa16101", "c9ffffffff0101", "db7fffffff", "dd7fffffff", "df7fffffff", "c67fffffff", "daffff6161", "dcffff01", "deffffa16101", "c5ffff01", "c8ffff0101",
-            nullptr };
-        return s;
-    }
+    static const char* const* seed_hex() { return sim::binseeds::msgpack(); }
 };
 const FormatApi& msgpack_api() { return BinaryFmt<MsgpackB>::api(); }
 }
